@@ -256,6 +256,7 @@ func (f *frame) specCall(fn *ssa.Function, args []*Val) (*Val, error) {
 	}
 	ts := make([]*Term, len(args))
 	litArg := false
+	shortLit := false
 	for i, a := range args {
 		if a.T == nil {
 			return nil, unsupported("spec function %s called with a pointer/closure argument", fn.Name())
@@ -264,12 +265,20 @@ func (f *frame) specCall(fn *ssa.Function, args []*Val) (*Val, error) {
 		if a.T.Sort.Kind == KSeq && a.T.Sort.Elem == SInt {
 			if l, ok := seqLiteral(a.T); ok && len(l) > 0 {
 				litArg = true
+				if len(l) <= 6 {
+					shortLit = true
+				}
 			}
 		}
 	}
 	// a non-recursive spec function applied to a string literal is expanded in place, so that
 	// comparisons with the literal are simplified (length and elements stated explicitly)
 	if litArg && !sym.Recursive && !sym.inProg && !sym.Uninterpreted && f.depth < 12 {
+		return f.inlineCall(fn, nil, args)
+	}
+	// a recursive spec function over a short string literal is unrolled in place (the literal shrinks
+	// by constant folding of s[1:], so the unrolling ends at the empty literal; depth-bounded anyway)
+	if shortLit && sym.Recursive && !sym.Uninterpreted && f.depth < 10 && len(fn.Blocks) > 0 {
 		return f.inlineCall(fn, nil, args)
 	}
 	var rs []*Term
